@@ -10,6 +10,8 @@ behaviour) and pass C (conformance of lists, revpos, lengths, data documents, wi
 
 Local additions to vlib.core (rule 9): the TLC runs of one stage run concurrently; the recorded trace is validated in chunks;
 pass P / C results are read from PrintT'ed TLC registers instead of a stop-on-first INVARIANT (same idiom as C05).
+The replication clause (BLIP allow-list) has its own small spec (AllowWindow.tla) and harness (package rest), see blip_allow_list.
+Development knobs: VERIF_C14_NOMC (skip the exhaustive runs), VERIF_C14_NOBLIP / VERIF_C14_ONLYBLIP, VERIF_C14_NBEH / VERIF_C14_NSIM.
 """
 import concurrent.futures
 import json
